@@ -132,6 +132,27 @@ impl Ctx {
                         obs.disallow_future_use();
                     }
                 }
+                "sub" => {
+                    let o = e["o"].as_u64().unwrap() as usize;
+                    let has_handle = self.with(|t| !t.observers[o - 1].is_empty()).unwrap_or(false);
+                    if has_handle {
+                        let r = self.subscribe(o, vec![]);
+                        self.with(|t| t.log.rets.push(r));
+                    }
+                }
+                "obs_drop" => {
+                    // the closure owns the handle(s) of observer o and drops one
+                    let o = e["o"].as_u64().unwrap() as usize;
+                    let h = self.with(|t| t.observers[o - 1].pop()).flatten();
+                    drop(h);
+                }
+                "drop_var" => {
+                    let v = e["v"].as_u64().unwrap() as usize;
+                    let w = self.with(|t| t.nodes[v - 1].take()).flatten();
+                    let h = self.with(|t| t.vars.remove(&v)).flatten();
+                    drop(w);
+                    drop(h);
+                }
                 "stabilise" => {
                     if let Some(s) = self.ws.upgrade() {
                         s.stabilise();
@@ -144,6 +165,42 @@ impl Ctx {
                 }
                 other => panic!("harness: unknown effect {other}"),
             }
+        }
+    }
+
+    /// Observer::try_subscribe with a logging handler; tokens are numbered per observer in issue
+    /// order like the spec's `onext`. Returns the entry for the return-value log.
+    pub fn subscribe(&self, o: usize, eff: Vec<J>) -> J {
+        let Some(h) = self.with(|t| t.observers[o - 1].first().cloned()).flatten() else {
+            return json!({"o": o, "r": ["err", "NoHandle"]});
+        };
+        let c2 = self.clone();
+        let tok_cell = Rc::new(Cell::new(0i64));
+        let tc = tok_cell.clone();
+        let r = h.try_subscribe(move |u: Update<&Val>| {
+            let (k, v) = match u {
+                Update::Initialised(v) => ("Necessary", v.to_json()),
+                Update::Changed(v) => ("Changed", v.to_json()),
+                Update::Invalidated => ("Invalidated", json!(["none", 0, 0])),
+            };
+            let obs = c2.with(|t| t.observers[o - 1].first().cloned()).flatten();
+            let rd = obs.map_or(J::Null, |ob| read_json(ob.try_get_value()));
+            c2.with(|t| t.log.dlv.push((o, tc.get(), k.to_string(), v, rd)));
+            c2.run_effects(&eff, 0);
+        });
+        match r {
+            Ok(tok) => {
+                let n = self
+                    .with(|t| {
+                        let n = t.tokens.keys().filter(|(oo, _)| *oo == o).count() as i64 + 1;
+                        t.tokens.insert((o, n), tok);
+                        n
+                    })
+                    .unwrap_or(0);
+                tok_cell.set(n);
+                json!({"o": o, "r": ["ok", n]})
+            }
+            Err(e) => json!({"o": o, "r": ["err", format!("{e:?}")]}),
         }
     }
 
@@ -591,35 +648,9 @@ impl Session {
             }
             "subscribe" => {
                 let o = a["o"].as_u64().unwrap() as usize;
-                let h = self.t.borrow().observers[o - 1][0].clone();
                 let eff = a["eff"].as_array().cloned().unwrap_or_default();
-                let c2 = ctx.clone();
-                let tok_cell = Rc::new(Cell::new(0i64));
-                let tc = tok_cell.clone();
-                let weak_obs_read = ctx.clone();
-                let r = h.try_subscribe(move |u: Update<&Val>| {
-                    let (k, v) = match u {
-                        Update::Initialised(v) => ("Necessary", v.to_json()),
-                        Update::Changed(v) => ("Changed", v.to_json()),
-                        Update::Invalidated => ("Invalidated", json!(["none", 0, 0])),
-                    };
-                    let obs = weak_obs_read.with(|t| t.observers[o - 1].first().cloned()).flatten();
-                    let rd = obs.map_or(J::Null, |ob| read_json(ob.try_get_value()));
-                    c2.with(|t| t.log.dlv.push((o, tc.get(), k.to_string(), v, rd)));
-                    c2.run_effects(&eff, 0);
-                });
-                let mut t = self.t.borrow_mut();
-                match r {
-                    Ok(tok) => {
-                        let n = t.tokens.keys().filter(|(oo, _)| *oo == o).count() as i64 + 1;
-                        // tokens are numbered per observer in issue order, like the spec's onext
-                        let n = a["t"].as_i64().unwrap_or(n);
-                        tok_cell.set(n);
-                        t.tokens.insert((o, n), tok);
-                        t.log.rets.push(json!({"o": o, "r": ["ok", n]}));
-                    }
-                    Err(e) => t.log.rets.push(json!({"o": o, "r": ["err", format!("{e:?}")]})),
-                }
+                let r = ctx.subscribe(o, eff);
+                self.t.borrow_mut().log.rets.push(r);
             }
             "unsubscribe" | "state_unsubscribe" => {
                 let o = a["o"].as_u64().unwrap() as usize;
@@ -760,7 +791,9 @@ impl Session {
                     out.push(Mismatch { prop: "C09", step, what: format!("delivered twice {g}") });
                 }
             }
-            for w in want {
+            // what must have been delivered (subscriptions still live after the handlers ran)
+            let must = e["dlvmin"].as_array().unwrap_or(want);
+            for w in must {
                 if !got.contains(w) {
                     out.push(Mismatch { prop: "C09", step, what: format!("missing delivery {w}") });
                 }
@@ -769,6 +802,17 @@ impl Session {
                 if k != "Invalidated" && rd != &json!(["ok", v]) {
                     out.push(Mismatch { prop: "C09", step, what: format!("delivery ({o},{tk}) {k} {v} but observer read {rd}") });
                 }
+            }
+        }
+        if let Some(want) = e["rets"].as_array() {
+            let key = |j: &J| j.to_string();
+            let mut g = t.log.rets.clone();
+            let mut w = want.clone();
+            g.sort_by_key(key);
+            w.sort_by_key(key);
+            if g != w {
+                let prop = if want.iter().chain(t.log.rets.iter()).any(|r| !r["v"].is_null()) { "C08" } else { "C10" };
+                out.push(Mismatch { prop, step, what: format!("call returned {:?} expected {want:?}", t.log.rets) });
             }
         }
         // C12: exactly the unreferenced nodes have been released
